@@ -102,11 +102,11 @@ def make_manifest(rng, n, scratch):
   return entries
 
 
-def run_worker(entries, out_dir, tag, hashseed, cpp_lib=None):
+def run_worker(entries, out_dir, tag, hashseed, cpp_lib=None, watch_state=False):
   mpath = os.path.join(out_dir, 'm_%s.json' % tag)
   opath = os.path.join(out_dir, 'o_%s.json' % tag)
   with open(mpath, 'w') as f:
-    json.dump({'repo': repo.repo_root(), 'verif_root': repo.VERIF_ROOT, 'entries': entries, 'cpp_lib': cpp_lib}, f)
+    json.dump({'repo': repo.repo_root(), 'verif_root': repo.VERIF_ROOT, 'entries': entries, 'cpp_lib': cpp_lib, 'watch_state': watch_state}, f)
   env = dict(os.environ, PYTHONHASHSEED=str(hashseed), PYTHONDONTWRITEBYTECODE='1')
   env.pop('LOGICA_PARSER', None)
   p = subprocess.run([repo.PYTHON, os.path.join(repo.VERIF_ROOT, 'vf', 'checks', 'c13_worker.py'), mpath, opath], env=env, cwd=out_dir,
@@ -136,8 +136,18 @@ def run_all(ctx, scratch, manifest_seed=None):
     ctx.count('hash_seed_runs')
   order_b = list(entries)
   random.Random(1).shuffle(order_b)
-  runs['order_shuffled'] = run_worker(order_b, scratch, 'orderb', seeds[0])
+  runs['order_shuffled'] = run_worker(order_b, scratch, 'orderb', seeds[0], watch_state=True)
   runs['order_reversed'] = run_worker(list(reversed(entries)), scratch, 'orderc', seeds[0])
+  # informational: which module / class level state of the repository changes while an entry is compiled, and
+  # which side effects (file writes, environment writes, processes) the audit hook saw during compilations
+  for e in entries:
+    r = runs['order_shuffled'][e['id']]
+    ctx.count('state_watched_compilations')
+    for g in r.get('globals_changed', []):
+      ctx.table('module_state_changed_by_a_compilation', g, e['class'])
+    for ev in r.get('side_effects', []):
+      ctx.count('audit_side_effects')
+      ctx.table('audit_side_effects', ev.split(' ')[0], e['class'])
   ctx.count('order_runs', 2)
   runs['reuse3'] = run_worker([dict(e, reuse=3) for e in entries], scratch, 'reuse', seeds[0])
   ctx.count('reuse_runs')
@@ -172,8 +182,10 @@ def run_all(ctx, scratch, manifest_seed=None):
       if same:
         ctx.count('identical')
       else:
+        suspects = sorted({g for x in entries for g in runs['order_shuffled'][x['id']].get('globals_changed', [])})[:30] if name.startswith('order') else []
         ctx.violation(classify(e, name, b, r), 'compilation of %s (%s) differs under %s: %s' % (e['predicate'], e['class'], kind, describe(b, r)),
                       {'kind': 'differs', 'entry': e, 'run': name, 'base': b.get('sql', b.get('error'))[:3000], 'other': r.get('sql', r.get('error'))[:3000],
+                       'module_state_changed_by_compilations_of_this_process': suspects,
                        'order': [x['id'] for x in (order_b if name == 'order_shuffled' else entries)], 'manifest_seed': mseed})
     # object reuse: several programs from one rules object, and the caller-owned object itself
     r = runs['reuse3'][e['id']]
